@@ -5,6 +5,7 @@ import (
 	"errors"
 	"fmt"
 	"io"
+	"net"
 	"runtime"
 	"sort"
 	"strings"
@@ -13,6 +14,7 @@ import (
 	"time"
 
 	netty "github.com/go-netty/go-netty"
+	"github.com/go-netty/go-netty/transport/tcp"
 	"pgregory.net/rapid"
 
 	"verif/harness/core"
@@ -36,6 +38,117 @@ type C13Case struct {
 	// ActivePanics: a handler behind the recorders panics in HandleActive for every second channel; the exception handler
 	// logs it and keeps the channel open
 	ActivePanics bool `json:"activepanics,omitempty"`
+	// SlowInactive: the inactive handler of the first channel parks until an "inactiverelease" step (a handler that
+	// cleans up slowly): a Shutdown that is closing that channel stands still in the middle of its work meanwhile
+	SlowInactive bool `json:"slowinactive,omitempty"`
+	// CrossClose: the inactive handler of a channel closes another channel that is still active (a relay closing its pair)
+	CrossClose bool `json:"crossclose,omitempty"`
+	// TCP (enumerated cases only): the shipped tcp transport on the loopback interface instead of the mock factory
+	TCP *C13TCP `json:"tcp,omitempty"`
+}
+
+type C13TCP struct {
+	SockBuf int  `json:"sockbuf"`
+	Client  bool `json:"client"` // a client is connected when Shutdown comes
+}
+
+// enumC13: the listening socket itself. After Shutdown nobody is listening on the port any more: a connection attempt
+// is refused and the address can be bound again.
+func enumC13(emit func(C13Case)) {
+	for _, sb := range []int{0, 1024, 65536} {
+		for _, cl := range []bool{false, true} {
+			emit(C13Case{TCP: &C13TCP{SockBuf: sb, Client: cl}})
+		}
+	}
+}
+
+func runC13TCP(c C13Case) (out core.Outcome) {
+	out.Classes = []string{fmt.Sprintf("tcp:sockbuf=%d", c.TCP.SockBuf), "tcp-listener"}
+	out.NonTrivial = true
+	probe, err := net.Listen("tcp", "127.0.0.1:0")
+	if err != nil {
+		out.Classes = append(out.Classes, "tcp-skipped")
+		return
+	}
+	addr := probe.Addr().String()
+	_ = probe.Close()
+	var mu sync.Mutex
+	inactive := 0
+	bs := netty.NewBootstrap(netty.WithChildInitializer(func(ch netty.Channel) {
+		ch.Pipeline().AddLast(netty.InactiveHandlerFunc(func(ctx netty.InactiveContext, ex netty.Exception) {
+			mu.Lock()
+			inactive++
+			mu.Unlock()
+			ctx.HandleInactive(ex)
+		}), netty.InboundHandlerFunc(func(ctx netty.InboundContext, m netty.Message) {
+			buf := make([]byte, 64)
+			if _, err := m.(io.Reader).Read(buf); err != nil {
+				panic(err)
+			}
+		}), netty.ExceptionHandlerFunc(func(ctx netty.ExceptionContext, ex netty.Exception) { ctx.Close(ex) }))
+	}))
+	result := make(chan error, 1)
+	bs.Listen("tcp://"+addr, tcp.WithOptions(&tcp.Options{SockBuf: c.TCP.SockBuf, NoDelay: true})).Async(func(err error) { result <- err })
+	// wait until it listens
+	var conn net.Conn
+	for i := 0; i < 200; i++ {
+		if conn, err = net.DialTimeout("tcp", addr, 200*time.Millisecond); err == nil {
+			break
+		}
+		select {
+		case e := <-result:
+			// could not bind (the port was taken meanwhile): nothing to judge
+			_ = e
+			out.Classes = append(out.Classes, "tcp-skipped")
+			return
+		default:
+		}
+		time.Sleep(5 * time.Millisecond)
+	}
+	if conn == nil {
+		out.Inconclusive = "tcp: the listener did not come up within a second"
+		bs.Shutdown()
+		return
+	}
+	if !c.TCP.Client {
+		_ = conn.Close()
+		time.Sleep(20 * time.Millisecond)
+	} else {
+		defer conn.Close()
+	}
+	done := make(chan struct{})
+	go func() { bs.Shutdown(); close(done) }()
+	select {
+	case <-done:
+	case <-time.After(10 * time.Second):
+		out.Violation = core.Viol("C13/shutdown-blocked", "tcp: Shutdown did not return within 10 s")
+		return
+	}
+	select {
+	case e := <-result:
+		if !errors.Is(e, netty.ErrServerClosed) {
+			out.Violation = core.Viol("C13/accept-loop-error", "tcp: accept loop ended with %v, want ErrServerClosed", e)
+			return
+		}
+	case <-time.After(5 * time.Second):
+		out.Violation = core.Viol("C13/accept-loop-did-not-end", "tcp: the accept loop had not ended 5 s after Shutdown returned")
+		return
+	}
+	// nobody listens any more
+	for i := 0; i < 3; i++ {
+		if c2, err := net.DialTimeout("tcp", addr, 300*time.Millisecond); err == nil {
+			_ = c2.Close()
+			out.Violation = core.Viol("C13/acceptor-left-open", "tcp (SockBuf %d): %s still accepts connections after Shutdown: the listening socket was not closed", c.TCP.SockBuf, addr)
+			return
+		}
+	}
+	l2, err := net.Listen("tcp", addr)
+	if err != nil {
+		out.Violation = core.Viol("C13/acceptor-left-open", "tcp (SockBuf %d): %s cannot be bound again after Shutdown: %v", c.TCP.SockBuf, addr, err)
+		return
+	}
+	_ = l2.Close()
+	return
 }
 
 type gatedAction struct {
@@ -119,6 +232,8 @@ func genC13(t *rapid.T) C13Case {
 	c.Queue = rapid.SampledFrom([]int{0, 0, 8}).Draw(t, "queue")
 	c.Parent = rapid.IntRange(0, 3).Draw(t, "parent") == 1
 	c.ActivePanics = rapid.IntRange(0, 3).Draw(t, "activepanics") == 1
+	c.SlowInactive = rapid.IntRange(0, 3).Draw(t, "slowinactive") == 2
+	c.CrossClose = rapid.IntRange(0, 3).Draw(t, "crossclose") == 2
 	nl := 0
 	n := rapid.IntRange(1, 12).Draw(t, "nsteps")
 	shutdownAt := rapid.IntRange(0, n).Draw(t, "shutdownat")
@@ -130,7 +245,7 @@ func genC13(t *rapid.T) C13Case {
 		after := i > shutdownAt
 		var ops []string
 		if after {
-			ops = []string{"release", "release", "inbound", "open", "acceptrelease", "acceptrelease"}
+			ops = []string{"release", "release", "inbound", "open", "acceptrelease", "acceptrelease", "inactiverelease"}
 		} else {
 			ops = []string{"listen", "listen", "inbound", "inbound", "connect", "closechan", "peerclose", "lclose", "release", "open", "cancelparent", "acceptrelease", "stallwrite"}
 			if nl >= 3 {
@@ -155,6 +270,9 @@ func genC13(t *rapid.T) C13Case {
 }
 
 func runC13(c C13Case) (out core.Outcome) {
+	if c.TCP != nil {
+		return runC13TCP(c)
+	}
 	cls := core.NewClassSet()
 	defer func() { out.Classes = cls.List() }()
 	tracker := mock.NewTracker()
@@ -171,6 +289,33 @@ func runC13(c C13Case) (out core.Outcome) {
 		return t
 	}
 	factory := &mock.Factory{Tracker: tracker, NewT: newT}
+	slowGate := make(chan struct{})
+	var slowMu sync.Mutex
+	slowReleased, slowWaiting := false, 0
+	releaseSlow := func() bool {
+		slowMu.Lock()
+		defer slowMu.Unlock()
+		if slowReleased {
+			return false
+		}
+		slowReleased = true
+		for ; slowWaiting > 0; slowWaiting-- {
+			tracker.Begin() // on behalf of the parked handler
+		}
+		close(slowGate)
+		return true
+	}
+	parkSlow := func() {
+		slowMu.Lock()
+		if slowReleased {
+			slowMu.Unlock()
+			return
+		}
+		slowWaiting++
+		tracker.End()
+		slowMu.Unlock()
+		<-slowGate
+	}
 	initializer := func(ch netty.Channel) {
 		cc := &c13Chan{ch: ch, tr: ch.Transport().(*mock.Transport)}
 		mu.Lock()
@@ -186,7 +331,25 @@ func runC13(c C13Case) (out core.Outcome) {
 			mu.Lock()
 			cc.inactive++
 			cc.order = append(cc.order, "inactive")
+			first := len(chans) > 0 && chans[0] == cc
+			var other *c13Chan
+			if c.CrossClose {
+				for _, x := range chans {
+					if x != cc && x.active > 0 && x.inactive == 0 && !x.stalled {
+						other = x
+						break
+					}
+				}
+			}
 			mu.Unlock()
+			if other != nil {
+				cls.Add("inactive-handler-closes-another-channel")
+				other.ch.Close(fmt.Errorf("verif: closed together with its pair"))
+			}
+			if c.SlowInactive && first {
+				cls.Add("slow-inactive-handler")
+				parkSlow()
+			}
 			ctx.HandleInactive(ex)
 		}), netty.InboundHandlerFunc(func(ctx netty.InboundContext, m netty.Message) {
 			buf := make([]byte, 64)
@@ -348,6 +511,10 @@ func runC13(c C13Case) (out core.Outcome) {
 			cc.tr.SetStall(true)
 			cls.Add("write-blocked-in-transport")
 			tracker.Go(func() { _ = cc.ch.Write([]byte("the peer does not read this")) })
+		case "inactiverelease":
+			if releaseSlow() && shutdownDone {
+				cls.Add("shutdown-stood-still-inside-a-slow-inactive-handler")
+			}
 		case "acceptrelease":
 			for _, a := range factory.AcceptorsCopy() {
 				if a.ReleaseAccept() {
@@ -433,6 +600,9 @@ func runC13(c C13Case) (out core.Outcome) {
 	// every action handed to the executor eventually runs, every Listen eventually returns
 	for {
 		progressed := ex.release(0)
+		if !progressed && releaseSlow() {
+			progressed = true
+		}
 		for _, a := range factory.AcceptorsCopy() {
 			if a.ReleaseAccept() {
 				progressed = true
@@ -567,8 +737,9 @@ func blockedInFramework() string {
 
 func TestC13(t *testing.T) {
 	core.Main(t, core.Prop[C13Case]{
-		ID:  "C13",
-		Gen: genC13,
-		Run: runC13,
+		ID:   "C13",
+		Gen:  genC13,
+		Run:  runC13,
+		Enum: enumC13,
 	})
 }
